@@ -59,4 +59,4 @@ def run(ctx):
                        "that owns the loop (the class's contract)",
                        "the loop is destroyed only after all foreign threads have finished",
                        "a run of the loop that does not return within the watchdog (20 s; 6 s in the scenarios) is reported as a lost wake-up"]
-    ctx.uncovered = ["exitLoop(wait_time > 0) (exit timer) and kOnce mode are not exercised by this driver"]
+    ctx.uncovered = ["runLoop() called from inside a callback of the same loop (nested loops)", "execution of the library's own deferred tasks (freeing a finished timer) is presumed, not observed"]
